@@ -75,6 +75,10 @@ def programs(tier):
                 o3(0)))
     out.append(('in-translate', doc({'tag': 'p', 'i18n_translate': '', 'children': [
         'x ', {'tag': 'span', 'static': [['class', 'k']], 'onerror': fb, 'children': ['partial ', L(0)]}, ' y']}), o3(0)))
+    # translation settings of the failed element end with it
+    out.append(('in-i18n-settings', doc({'tag': 'span', 'i18n_domain': 'inner', 'i18n_context': 'ictx', 'i18n_target': "'fr'",
+                                         'onerror': fb, 'children': [{'tag': 'b', 'i18n_translate': '', 'children': ['in']}, L(0)]},
+                                        {'tag': 'p', 'i18n_translate': '', 'children': ['after']}), o3(0)))
     out.append(('in-name', doc({'tag': 'p', 'i18n_translate': '', 'children': [
         'a ', {'tag': 'b', 'i18n_name': 'n', 'children': ['pre ', {'tag': 'span', 'onerror': fb2, 'children': ['q', L(0)]}]},
         ' c ', {'tag': 'i', 'onerror': fb3, 'children': [L(1)]}]}), o3(0, 1)))
